@@ -77,6 +77,12 @@ Example c14_example :
   end.
 Proof. vm_compute. repeat split. Qed.
 
+(* A refusal must be able to REACH the caller: no function of the library that is declared noexcept calls anything or throws
+   (a std::logic_error raised inside a noexcept function terminates the program instead).  Table regenerated from the source. *)
+Theorem c14_refusals_can_propagate : gen_noexcept_refusing = [].
+Proof. reflexivity. Qed.
+
+Print Assumptions c14_refusals_can_propagate.
 Print Assumptions c14_every_sequence_guards_its_index.
 Print Assumptions c14_no_unchecked_dereference.
 Print Assumptions c14_current_sequences_never_ub.
